@@ -32,6 +32,7 @@ type closureVal struct {
 	fn       *ssa.Function
 	bindings []ssa.Value
 	frame    *Frame
+	id       Term
 }
 
 type retPoint struct {
